@@ -133,7 +133,6 @@ fn jitter(ctl: &Ctl, w: usize) {
 
 /// The hook callback installed into the library.
 fn on_point(ctl: &Arc<Ctl>, thread: usize, p: Point, idx: usize, ok: bool) {
-    let w = thread + 1;
     // A worker left over from an earlier, abandoned run (a wedged pipe never lets its threads
     // return) looks the callback up per call and would land in this run's controller.
     let bound = BOUND.with(|c| c.get());
@@ -143,6 +142,16 @@ fn on_point(ctl: &Arc<Ctl>, thread: usize, p: Point, idx: usize, ok: bool) {
         std::thread::sleep(Duration::from_millis(2));
         return;
     }
+    on_bound_point(ctl, thread, p, idx, ok);
+    // the worker loop is over: should the OS thread be reused for a worker of a later pipe (a thread pool), it is
+    // that pipe's worker from then on
+    if p == Point::Exit {
+        BOUND.with(|c| c.set(0));
+    }
+}
+
+fn on_bound_point(ctl: &Arc<Ctl>, thread: usize, p: Point, idx: usize, ok: bool) {
+    let w = thread + 1;
     WORKER.with(|c| c.set(w));
     match ctl.mode {
         Mode::Free => {
@@ -233,6 +242,19 @@ fn make_pipeline(ctl: &Arc<Ctl>, fail: Option<usize>, delays: bool) -> Pipeline<
 
 /// `slow`: (item, milliseconds) - one item whose processing takes very long while the consumer
 /// waits (a consumer-side time-out must not end the stream)
+/// Stack need of the processing function in KiB (0 = none): the function recurses until that much stack is in use.
+static DEEP_KIB: std::sync::atomic::AtomicUsize = std::sync::atomic::AtomicUsize::new(0);
+
+#[inline(never)]
+fn burn_stack(base: usize, bytes: usize, x: usize) -> usize {
+    let pad = [x as u8; 512];
+    let here = std::hint::black_box(&pad) as *const _ as usize;
+    if base.abs_diff(here) >= bytes {
+        return x + pad[17] as usize - (x as u8) as usize;
+    }
+    std::hint::black_box(burn_stack(base, bytes, x)) + pad[3] as usize - (x as u8) as usize
+}
+
 fn make_pipeline_slow(ctl: &Arc<Ctl>, fail: Option<usize>, delays: bool, slow: Option<(usize, u64)>) -> Pipeline<usize, usize> {
     let c = ctl.clone();
     Arc::new(move |x: usize| {
@@ -249,6 +271,11 @@ fn make_pipeline_slow(ctl: &Arc<Ctl>, fail: Option<usize>, delays: bool, slow: O
         if delays {
             jitter(&c, w);
             jitter(&c, w);
+        }
+        let deep = DEEP_KIB.load(std::sync::atomic::Ordering::SeqCst);
+        if deep > 0 {
+            let mark = 0u8;
+            return burn_stack(&mark as *const _ as usize, deep * 1024, x);
         }
         x
     })
@@ -693,7 +720,11 @@ pub fn exec(case: &Value) -> Vec<Value> {
         let slow = case.get("slow").and_then(|x| x.as_f64()).unwrap_or(0.2);
         let slow_item = case.get("slow_item").and_then(|x| x.as_u64()).map(|k| (k as usize, case.get("slow_ms").and_then(|x| x.as_u64()).unwrap_or(6500)));
         let idle_ms = case.get("idle_ms").and_then(|x| x.as_u64()).unwrap_or(3);
-        run_free(w, n, case.get("seed").and_then(|x| x.as_u64()).unwrap_or(0), d, slow, slow_item, idle_ms)
+        // a processing function that needs `deep_kib` KiB of stack (well below the default thread stack of 2 MiB)
+        DEEP_KIB.store(get_u(case, "deep_kib"), std::sync::atomic::Ordering::SeqCst);
+        let r = run_free(w, n, case.get("seed").and_then(|x| x.as_u64()).unwrap_or(0), d, slow, slow_item, idle_ms);
+        DEEP_KIB.store(0, std::sync::atomic::Ordering::SeqCst);
+        r
     } else {
         let sched: Vec<String> = case["sched"]
             .as_array()
